@@ -21,8 +21,8 @@ ReduceOps == {"add","maximum","minimum","fmax","fmin"}
 \* special value classes are paired with plain partners only (a tiny bare operand with a quantity/array, a tiny
 \* quantity with a bare number/array or a quantity), on the units SpUnits, in the forms that reach the zero scan
 \* the same economy for heterogeneous sequences, tuples and the three-element mixed list (scalar partner: its shape is (3,))
-Restricted == SpecialKinds \cup HetList \cup {"tlq","tlqm","lqm3"}
-Partner(k, other) == IF k \in {"tq","tqa"} THEN other \in {"bs","ba","q"} ELSE IF k = "lqm3" THEN other = "q" ELSE other \in {"q","a"}
+Restricted == SpecialKinds \cup HetList \cup {"tlq","tlqm","lqm3"} \cup ShapeKinds
+Partner(k, other) == IF k \in ShapeKinds THEN other \in {"q","a","c","bs"} /\ Compat(Shape(k), Shape(other)) ELSE IF k \in {"tq","tqa"} THEN other \in {"bs","ba","q"} ELSE IF k = "lqm3" THEN other = "q" ELSE other \in {"q","a"}
 SpecialOk(form, k0, n0, k1, n1) ==
   /\ (k0 \in Restricted => Partner(k0, k1))
   /\ (k1 \in Restricted => Partner(k1, k0))
@@ -63,6 +63,23 @@ ArrLegal(op, k0, k1) ==
     [] op = "histogram_range" -> k0 = "a" /\ k1 \in {"q","bs"}
     [] OTHER -> FALSE
 
+\* size / shape classes in the array functions: every operand position, shape-legal combinations only (so that a
+\* refusal can only come from the units, never from NumPy's own shape rules)
+OneD == {"a","az","e0","a1","ba","be"}
+ArrShapeLegal(op, k0, k1) ==
+  /\ ({k0,k1} \cap ShapeKinds # {}) /\ ({k0,k1} \cap UnytKinds # {})
+  /\ {k0,k1} \subseteq ShapeKinds \cup {"q","a","az","ba"}
+  /\ CASE op \in {"concatenate","hstack","append"} -> k0 \in OneD /\ k1 \in OneD
+       [] op \in {"union1d","intersect1d","setdiff1d","setxor1d","isin","searchsorted","insert"} -> k0 \in OneD \cap UnytKinds /\ k1 \in OneD
+       [] op = "vstack" -> (k0 \in {"e02","a","az"} /\ k1 \in {"e02","a","az"}) \/ (Shape(k0) = Shape(k1) /\ Shape(k0) # "s")
+       [] op \in {"stack","dstack","column_stack"} -> Shape(k0) = Shape(k1) /\ Shape(k0) # "s"
+       [] op \in {"where","clip","isclose","allclose","array_equiv","array_equal"} -> Compat(Shape(k0), Shape(k1)) /\ (op = "clip" => k0 \in UnytKinds)
+       [] op \in {"choose","select"} -> Compat(Shape(k0), Shape(k1)) /\ Shape(k0) # "s" /\ Shape(k1) # "s" /\ (op = "select" => k0 \in UnytKinds)
+       [] op \in {"linspace","geomspace"} -> {k0,k1} \subseteq {"q","q0a"}
+       [] op = "interp" -> k0 \in {"e0","a1","q0a"} /\ k1 \in {"a","az"}
+       [] op \in V2InPlace \cup {"copyto_where"} -> k0 = "a" /\ k1 \in {"a1","q0a"}
+       [] OTHER -> FALSE
+
 Next ==
   /\ c = <<>>
   /\ \/ /\ "ufunc" \in Fams
@@ -74,9 +91,13 @@ Next ==
              /\ ArrLegal(op, k0, k1) /\ UnitOk(k0, n0) /\ UnitOk(k1, n1)
              /\ k0 \notin Restricted /\ (k1 \in Restricted => k1 \in ArrSpecial /\ n0 \in SpUnits \cup {"nd"} /\ n1 \in SpUnits \cup {"nd"})
              /\ c' = Case("arrfn", op, "call", k0, n0, k1, n1)
+     \/ /\ "arrfn" \in Fams
+        /\ \E op \in ArrFns \cap ArrOps, k0 \in UKinds0, k1 \in UKinds1, n0 \in SpUnits \cup {"nd"}, n1 \in SpUnits \cup {"nd"} :
+             /\ ArrShapeLegal(op, k0, k1) /\ UnitOk(k0, n0) /\ UnitOk(k1, n1)
+             /\ c' = Case("arrfn", op, "call", k0, n0, k1, n1)
      \/ /\ "setitem" \in Fams
         /\ \E k1 \in UKinds1 \ {"c"}, n0 \in Units, n1 \in Units \cup {"nd"} :
-             /\ UnitOk(k1, n1) /\ (k1 \in Restricted => k1 \in ArrSpecial \cup {"tq","tqa","tlq"} /\ n0 \in SpUnits /\ n1 \in SpUnits \cup {"nd"})
+             /\ UnitOk(k1, n1) /\ (k1 \in Restricted => k1 \in ArrSpecial \cup {"tq","tqa","tlq","a1","q0a"} /\ n0 \in SpUnits /\ n1 \in SpUnits \cup {"nd"})
              /\ c' = Case("setitem", "setitem", IF Shape(k1) = "s" THEN "index" ELSE "slice", "a", n0, k1, n1)
      \/ /\ "conv" \in Fams
         /\ \E e \in {"to","in_units","to_value","convert_to_units"}, f \in {"obj","str"}, k0 \in {"q","a"}, n0 \in ConvUnits, n1 \in ConvUnits :
